@@ -5,6 +5,9 @@ import os
 
 V = os.path.dirname(os.path.dirname(os.path.abspath(__file__)))
 CHECKS = {
+    'C14': ('generator emits configurations together with their abstract description: valid ones must be accepted and every enumeration getter and the initial snapshot must equal the description; each single-fault class of the statement (26 classes) applied at sampled applicable positions must give return value 1',
+            'documented layout = key order/optional parts of example/config and the test configs; cross-kind collisions not generated',
+            'runtime monitoring: description-vs-getter oracle over generated configurations and single-fault mutations + ASan/UBSan + lock monitor'),
     'C07': ('reference state fold over the recorded uplink/downlink history compared field by field with bidib_get_state() and every single-entity getter at sampled snapshots; generated configurations x node trees x histories of state-bearing messages with full value ranges, interleaved with drive / DCC-accessory commands',
             'reference fold vlib/statemodel.py; undocumented initial values of DCC accessories unconstrained until first written; gcc ASan/UBSan',
             'runtime monitoring: reference-model oracle over recorded message history vs. getter snapshots + ASan/UBSan'),
